@@ -7,8 +7,9 @@
    R_z = alpha_z + (n_D/n_e) C_z. *)
 Require Import Cherab.Common.Qx.
 From Coq Require Import Lqa.
-Require Import Cherab.Model.C09_Balance Cherab.Model.C09_Check.
-Require Import Cherab.Proofs.C09_Balance Cherab.Proofs.C09_Check.
+Require Import Cherab.Model.C09_Balance Cherab.Model.C09_Check Cherab.Model.C09_Interp.
+Require Import Cherab.Proofs.C09_Balance Cherab.Proofs.C09_Check Cherab.Proofs.C09_More.
+From Coq Require Import Permutation.
 Open Scope Q_scope.
 
 Theorem C09_fractions_in_unit_interval :
@@ -125,6 +126,96 @@ Theorem C09_checker_evaluates_model :
   forall Z ion R, Forall2 Qeq (cf_fast Z ion R) (map (cf Z ion R) (seq 0 (S Z))).
 Proof. exact cf_fast_ok. Qed.
 Print Assumptions C09_checker_evaluates_model.
+
+(* ---- added in the deepening round ------------------------------------------------------------------------ *)
+
+(* uniqueness stated on the very object the code builds: any vector of length Z+1 that the code's matrix (list of
+   rows, Model.balance_matrix, compared cell by cell with the captured lsq_linear argument on every run) maps to the
+   code's right-hand side is n_e times the closed form *)
+Theorem C09_matrix_solution_unique :
+  forall Z ion rec cx nd ne xs, rates_ok Z ion rec cx nd ne -> length xs = S Z ->
+  Forall2 Qeq (matvec (balance_matrix Z ion rec cx nd ne) xs) (balance_rhs Z ne) ->
+  forall z, (z <= Z)%nat -> nth z xs 0 == ne * fractional_point Z ion rec cx nd ne z.
+Proof. exact matrix_solution_unique. Qed.
+Print Assumptions C09_matrix_solution_unique.
+
+(* the balance does not depend on units: rates * k, densities * m (k, m > 0) give the same fractions *)
+Theorem C09_scale_covariant :
+  forall Z ion rec cx nd ne k m, rates_ok Z ion rec cx nd ne -> 0 < k -> 0 < m ->
+  forall z, (z <= Z)%nat ->
+  fractional_point Z (fun c => k * ion c) (fun c => k * rec c) (option_map (fun f c => k * f c) cx) (m * nd) (m * ne) z
+  == fractional_point Z ion rec cx nd ne z.
+Proof. exact scale_covariant. Qed.
+Print Assumptions C09_scale_covariant.
+
+(* the neutral fraction is strictly increasing in the donor density (donor sensitivity for every pair of densities,
+   not only against "no donor") *)
+Theorem C09_neutral_fraction_monotone_in_donor :
+  forall Z ion rec c nd1 nd2 ne,
+  rates_ok Z ion rec (Some c) nd1 ne -> nd1 < nd2 -> (forall z, (1 <= z <= Z)%nat -> 0 < c z) ->
+  fractional_point Z ion rec (Some c) nd1 ne O < fractional_point Z ion rec (Some c) nd2 ne O.
+Proof. exact monotone_in_donor. Qed.
+Print Assumptions C09_neutral_fraction_monotone_in_donor.
+
+(* the charge-state densities of both density variants satisfy the pairwise balance themselves, and the
+   neutrality variant is the balance fractions times its own total (until now checked by the search only) *)
+Theorem C09_densities_satisfy_balance :
+  forall Z ion rec cx nd ne n_el, rates_ok Z ion rec cx nd ne ->
+  forall z, (z < Z)%nat ->
+  from_density_point Z ion rec cx nd ne n_el z * ion z ==
+  from_density_point Z ion rec cx nd ne n_el (S z) * (rec (S z) + dcx cx nd ne (S z)).
+Proof. exact densities_balance. Qed.
+Print Assumptions C09_densities_satisfy_balance.
+
+Theorem C09_neutrality_shape :
+  forall Z ion rec cx nd ne sp, rates_ok Z ion rec cx nd ne ->
+  let dens := match_neutrality_point Z ion rec cx nd ne sp in
+  sumn (S Z) dens == element_ne ne sp / z_mean Z (fractional_point Z ion rec cx nd ne)
+  /\ (forall z, dens z == fractional_point Z ion rec cx nd ne z * sumn (S Z) dens)
+  /\ (forall z, (z < Z)%nat -> dens z * ion z == dens (S z) * (rec (S z) + dcx cx nd ne (S z))).
+Proof. exact neutrality_shape. Qed.
+Print Assumptions C09_neutrality_shape.
+
+(* the given species enter only through their total charge: any order of the list gives the same densities *)
+Theorem C09_species_order_irrelevant :
+  forall Z ion rec cx nd ne sp sp', Permutation sp sp' ->
+  forall z, match_neutrality_point Z ion rec cx nd ne sp z == match_neutrality_point Z ion rec cx nd ne sp' z.
+Proof. exact species_order_irrelevant. Qed.
+Print Assumptions C09_species_order_irrelevant.
+
+(* interpolator entry points (model of the piecewise-linear interpolation in Model/C09_Interp.v): the interpolant
+   passes through its knots, ... *)
+Theorem C09_interpolant_through_knots :
+  forall xs ys i, increasing xs -> (i < length xs)%nat -> (2 <= length xs)%nat ->
+  oQeq (lerp xs ys (nth i xs 0)) (Some (nth i ys 0)).
+Proof. exact lerp_through_knots. Qed.
+Print Assumptions C09_interpolant_through_knots.
+
+(* ... every value it returns is a blend, with a weight in [0,1] that depends on the knots and x only, of the two
+   neighbouring knot values, ... *)
+Theorem C09_interpolant_is_blend :
+  forall xs ys x, increasing xs -> forall v, lerp xs ys x = Some v ->
+  exists i w, locate xs x 0 = Some (i, w) /\ 0 <= w /\ w <= 1 /\ v = nth i ys 0 + (nth (S i) ys 0 - nth i ys 0) * w.
+Proof. exact lerp_is_blend. Qed.
+Print Assumptions C09_interpolant_is_blend.
+
+(* ... and a blend of two balance solutions is again within [0,1] and sums to one; a blend of two density
+   profiles sums to the blend of the element densities.  So the 1-D interpolator entry points conserve particles
+   between knots as well.  (2-D interpolators, AxisymmetricMapper and the equilibrium flux map stay outside the
+   model: that is what remains of C09_entry_points_agree_partial.) *)
+Theorem C09_interpolated_fractions_conserve :
+  forall n fa fb w, 0 <= w -> w <= 1 ->
+  (forall z, (z < n)%nat -> 0 <= fa z /\ fa z <= 1) -> (forall z, (z < n)%nat -> 0 <= fb z /\ fb z <= 1) ->
+  sumn n fa == 1 -> sumn n fb == 1 ->
+  (forall z, (z < n)%nat -> 0 <= blend fa fb w z /\ blend fa fb w z <= 1) /\ sumn n (blend fa fb w) == 1.
+Proof. exact blend_fractions. Qed.
+Print Assumptions C09_interpolated_fractions_conserve.
+
+Theorem C09_interpolated_densities_conserve :
+  forall n fa fb na nb w, sumn n fa == 1 -> sumn n fb == 1 ->
+  sumn n (blend (fun z => fa z * na) (fun z => fb z * nb) w) == na + (nb - na) * w.
+Proof. exact blend_densities. Qed.
+Print Assumptions C09_interpolated_densities_conserve.
 
 (* non-vacuity: carbon-like Z = 6 with all rates 1, n_D = n_e meets the hypotheses *)
 Example C09_nonvacuous :
